@@ -91,7 +91,7 @@ fn params(tier: Tier) -> ScriptParams {
         timeouts: vec![3000, 20000, 30000],
         big_jumps: false,
         settle_us: 60_000_000,
-        replay_weight: 1, vary_server_limits: false, stray_weight: 0,
+        replay_weight: 1, vary_server_limits: false, stray_weight: 0, reconnect_weight: 0,
     }
 }
 
